@@ -12,9 +12,15 @@ fn any_mode() -> SchedulingMode {
 #[kani::proof]
 #[kani::unwind(5)]
 fn c18_setters_take_effect() {
-    let cfg = DynamicConfig::from_cli(any_mode(), kani::any(), kani::any(), kani::any(), kani::any(), kani::any());
+    let (m0, no_quality, no_stall): (SchedulingMode, bool, bool) = (any_mode(), kani::any(), kani::any());
+    let (min_in_flight, stale_ms, t0): (i32, u64, u64) = (kani::any(), kani::any(), kani::any());
+    let cfg = DynamicConfig::from_cli(m0, no_quality, no_stall, min_in_flight, stale_ms, t0);
     let mut model = cfg.snapshot();
-    assert!(model.conn_timeout_ms >= 1000 && model.conn_timeout_ms <= 60000, "start-up timeout is clamped too");
+    // start-up goes through the same rules as the run-time setters (seed C18c: a range-only check is not enough)
+    let want_t0 = if t0 < 1000 { 1000 } else if t0 > 60000 { 60000 } else { t0 };
+    assert!(model.conn_timeout_ms == want_t0, "start-up timeout is clamped to 1000..60000 like a run-time set (in range = unchanged)");
+    assert!(model.mode == m0 && model.quality_enabled == !no_quality && model.stall_deselect == !no_stall, "start-up flags are stored as given");
+    assert!(model.stall_min_in_flight == min_in_flight && model.stall_ack_stale_ms == stale_ms, "start-up stall thresholds are stored as given");
     let mut i = 0;
     while i < 3 {
         let which: u8 = kani::any();
